@@ -26,6 +26,10 @@ fn main() {
         "sm3" => suites::sm3::drive(&mut t, &tier, seed),
         "zuc" => suites::zuc::drive_stream(&mut t, &tier, seed, plan),
         "eea" => suites::zuc::drive_eea(&mut t, &tier, seed),
+        "sm2sig" => suites::sm2::drive_sign(&mut t, &tier, seed, plan),
+        "sm2ver" => suites::sm2::drive_verify(&mut t, &tier, seed, plan),
+        "sm2enc" => suites::sm2::drive_encrypt(&mut t, &tier, seed, plan),
+        "sm2dec" => suites::sm2::drive_decrypt_faults(&mut t, &tier, seed, plan),
         "sm4blk" => suites::sm4::drive_block(&mut t, &tier, seed, plan),
         "sm4mode" => suites::sm4::drive_modes(&mut t, &tier, seed),
         _ => {
